@@ -165,11 +165,15 @@ pub fn main(tier: &str, seed: u64, outdir: &str) {
         model_lines(&c, &recs, case, &mut cases);
         if case < 2 { rep.sample(json!({"run": c.run.to_json(), "chunk": c.chunk, "backend": c.backend, "flush_every": c.every, "values_read_back": checked})); }
     }
+    // Sampler::flush() of the real parallel sampler after every chain has finished and before finalisation (several chains, chunk sizes
+    // that do not divide the draw counts): the store must already hold everything (shared with C14's multi-chain comparison)
+    for case in 0..(if tier == "thorough" { 120 } else { 5 }) { rep.evaluations += 1; crate::c14::multi_chain_zarr(seed ^ 0xC15, case, &mut rep, true); }
     cases.write(&format!("{outdir}/C15.cases")).unwrap();
     rep.write(&format!("{outdir}/C15.report.json"));
 }
 
 pub fn replay(v: &serde_json::Value) -> bool {
+    if v["kind"] == "c14multi" { return crate::c14::replay(v); }
     let c = Cfg { run: RunCfg::from_json(&v["run"]), chunk: v["chunk"].as_u64().unwrap(), backend: v["backend"].as_u64().unwrap() as u8, every: v["every"].as_u64().unwrap() as usize };
     let (res, checked, _) = run_case(&c);
     println!("replay: {:?} ({checked} values read back)", res);
